@@ -103,6 +103,36 @@ def render_ds(ir):
         return "%s [aggr %s%s%s]" % (render_ds(ir[1]), items, render_group(ir[3], ir[4]), render_having(ir[5]))
     if k == "setop":
         return "%s(%s)" % (ir[1], ", ".join(render_ds(o) for o in ir[2]))
+    if k == "dsif":
+        # the condition is written with membership (DS#Me_1): a bare boolean dataset as condition is known finding C01-dsif-bare-condition
+        cond = "%s#Me_1" % ir[1][1] if ir[1][0] == "ds" and not (len(ir) > 4 and ir[4] == "bare") else render_ds(ir[1])
+        return "if %s then %s else %s" % (cond, render_ds(ir[2]), render_ds(ir[3]))
+    if k == "analytic":
+        _, op, a, measure, partition, orderby, window, params, target = ir
+        def bound(b):
+            return {"up": "unbounded preceding", "uf": "unbounded following", "cur": "current data point"}.get(b) or "%d %s" % (b[1], "preceding" if b[0] == "p" else "following")
+        over = "over (%s%s%s)" % ("partition by %s" % ", ".join(partition) if partition else "",
+                                  " order by %s" % ", ".join("%s %s" % (i, d) for i, d in orderby) if orderby else "",
+                                  " %s between %s and %s" % ("data points" if window[0] == "rows" else "range", bound(window[1]), bound(window[2])) if window else "")
+        arg = measure if target else render_ds(a)
+        if op == "rank":
+            call = "rank(%s)" % over
+        elif op in ("lag", "lead"):
+            call = "%s(%s, %d %s)" % (op, arg, params[0], over)
+        else:
+            call = "%s(%s %s)" % (op, arg, over)
+        return "%s [calc %s := %s]" % (render_ds(a), target, call) if target else call
+    if k == "join":
+        ops = ", ".join("%s as %s" % (render_ds(a), alias) for a, alias in ir[2])
+        using = " using %s" % ", ".join(ir[3]) if ir[3] else ""
+        body = ""
+        for ckind, p in ir[4]:
+            if ckind == "aggr":
+                items, mode, gids = p
+                body += " aggr " + ", ".join("%s := %s(%s)" % (name, op, comp) for name, role, op, comp in items) + render_group(mode, gids)
+            else:
+                body += " " + render_ds(("clause", ckind, ("ds", ""), p)).strip()[1:-1]
+        return "%s(%s%s%s)" % (ir[1], ops, using, body)
     if k == "dsbin":
         if ir[1] in ("mod", "power", "log"):
             return "%s(%s, %s)" % (ir[1], render_ds(ir[2]), render_ds(ir[3]))
@@ -261,7 +291,10 @@ def case_inputs(draw, family=None, n_datasets=None, max_rows=8, mixed=False):
         comps = {}
         for n, t in ids:
             comps[n] = ("I", t)
-        for m in range(1, n_meas + 1):
+        morder = list(range(1, n_meas + 1))
+        if d > 1 and n_meas > 1 and draw(st.booleans()):
+            morder.reverse()  # same measures declared in a different order: operators must pair them by name
+        for m in morder:
             comps["Me_%d" % m] = ("M", draw(st.sampled_from(FAMILIES[family])))
         if mixed:
             extra_types = draw(st.lists(st.sampled_from(["Number", "Integer", "String", "Boolean"]), min_size=0, max_size=3))
@@ -543,3 +576,155 @@ def setop_case(draw):
     if op in ("setdiff", "symdiff"):
         operands = operands[:2]
     return ci, ("setop", op, operands)
+
+
+# ---------------------------------------------------------------- joins
+@st.composite
+def join_case(draw):
+    """(ci, ir) for C04: 2-3 datasets, identifier sets equal or nested, distinct measure names except an optional shared
+    Me_1 (disambiguated by alias), partial key overlap, optional using (= common identifiers) and a body."""
+    kind = draw(st.sampled_from(["inner_join", "inner_join", "left_join", "left_join", "full_join"]))
+    k = draw(st.integers(2, 3))
+    n_ids = draw(st.integers(1, 3))
+    full_ids = ID_POOL[:n_ids]
+    shared = draw(st.booleans())
+    structs, rows, operands = {}, {}, []
+    for d in range(1, k + 1):
+        ids = full_ids
+        if kind != "full_join" and d > 1 and n_ids > 1 and draw(st.booleans()):
+            ids = full_ids[:draw(st.integers(1, n_ids))]
+        comps = {n: ("I", t) for n, t in ids}
+        letter = "abc"[d - 1]
+        for m in range(1, draw(st.integers(1, 2)) + 1):
+            comps["M%s_%d" % (letter, m)] = ("M", draw(st.sampled_from(["Number", "Integer", "String", "Boolean"])))
+        if shared and d <= 2:
+            comps["Me_1"] = ("M", "Number")
+        structs["DS_%d" % d] = comps
+        keys = draw(st.lists(st.tuples(*[st.sampled_from(ID_VALUES[n]) for n, _ in ids]), min_size=0, max_size=6, unique=True))
+        rr = []
+        for key in keys:
+            r = {n: str(v) for (n, _), v in zip(ids, key)}
+            for n, (role, t) in comps.items():
+                if role != "I":
+                    r[n] = draw(st.one_of(st.none(), st.sampled_from(POOL[t])))
+            rr.append(r)
+        rows["DS_%d" % d] = rr
+        operands.append((("ds", "DS_%d" % d), "d%d" % d))
+    ci = dict(structs=structs, rows=rows, family="mixed")
+    using = None
+    body = []
+    from verif import refvtl
+    base = ("join", kind, operands, None, [])
+    try:
+        jc = refvtl.eval_ds(base, {n: (c, []) for n, c in structs.items()})[0]
+    except refvtl.Unsupported:
+        return ci, base
+    if kind != "full_join" and draw(st.integers(0, 3)) == 0:
+        common = [i for i, _ in full_ids if all(i in structs[n] for n in structs)]
+        if common and all(sorted(x for x in structs[n] if structs[n][x][0] == "I") == sorted(common) for n in list(structs)[1:]):
+            using = common
+    non_ids = [n for n in jc if jc[n][0] != "I"]
+    dup = [n for n in non_ids if "#" in n]
+    cur = dict(jc)
+    if dup:  # shared names must be disambiguated before anything else can reference or return them
+        if draw(st.booleans()):
+            pairs = [(n, "x%d" % (j + 1)) for j, n in enumerate(dup)]
+            body.append(("rename", pairs)); m = dict(pairs); cur = {m.get(n, n): v for n, v in cur.items()}
+        else:
+            body.append(("drop", dup)); cur = {n: v for n, v in cur.items() if n not in dup}
+    else:
+        choice = draw(st.sampled_from(["none", "filter", "calc", "keep", "drop", "aggr", "filter+calc"]))
+        others = [n for n in cur if cur[n][0] != "I"]
+        if "filter" in choice:
+            cond = draw(expr("Boolean", cur, 1))
+            if not has_comp(cond):
+                cond = ("bin", "or", cond, ("bin", "and", ("isnull", ("comp", sorted(cur)[0])), ("lit", "Boolean", False)))
+            body.append(("filter", cond))
+        if "calc" in choice:
+            typ = draw(st.sampled_from(["Number", "Integer", "String", "Boolean"]))
+            body.append(("calc", [("c_1", "M", typ, draw(expr(typ, cur, 2)))]))
+        if choice == "keep" and others:
+            body.append(("keep", draw(st.lists(st.sampled_from(others), min_size=1, max_size=len(others), unique=True))))
+        if choice == "drop" and len(others) >= 2:
+            body.append(("drop", draw(st.lists(st.sampled_from(others), min_size=1, max_size=len(others) - 1, unique=True))))
+        if choice == "aggr":
+            nums = [n for n in others if cur[n][1] in ("Number", "Integer")]
+            idl = [n for n in cur if cur[n][0] == "I"]
+            if nums:
+                body.append(("aggr", ([("a_1", "M", draw(st.sampled_from(["sum", "max", "min", "avg"])), draw(st.sampled_from(nums)))], "by", [draw(st.sampled_from(idl))])))
+    return ci, ("join", kind, operands, using, body)
+
+
+# ---------------------------------------------------------------- analytic functions
+AN_OPS = ["sum", "avg", "count", "min", "max", "median", "stddev_pop", "stddev_samp", "var_pop", "var_samp", "first_value", "last_value", "lag", "lead", "rank", "ratio_to_report"]
+BOUND_ORDER = ["up", ("p", 3), ("p", 2), ("p", 1), ("p", 0), "cur", ("f", 0), ("f", 1), ("f", 2), ("f", 3), "uf"]
+
+
+@st.composite
+def analytic_case(draw):
+    """(ci, ir) for C06: total orderings (order by = all identifiers not in the partition), all frame shapes with offsets 0-3."""
+    ci = draw(case_inputs(family="num", n_datasets=1, max_rows=12))
+    comps = ci["structs"]["DS_1"]
+    ids = [n for n, (r, t) in comps.items() if r == "I"]
+    meas = [n for n, (r, t) in comps.items() if r == "M"]
+    op = draw(st.sampled_from(AN_OPS))
+    partition = draw(st.lists(st.sampled_from(ids), min_size=0, max_size=len(ids) - 1, unique=True)) if len(ids) > 1 else []
+    rest = [i for i in ids if i not in partition]
+    orderby = [(i, draw(st.sampled_from(["asc", "desc"]))) for i in draw(st.permutations(rest))]
+    window, params = None, []
+    calc = draw(st.booleans()) or op in ("rank", "count")
+    if op == "ratio_to_report":
+        orderby = []
+        if not partition:
+            partition = [ids[0]]
+    elif op in ("lag", "lead"):
+        params = [draw(st.integers(1, 3))]
+    elif op != "rank":
+        w = draw(st.sampled_from(["none", "rows", "rows", "range", "noorder"]))
+        if w == "noorder":
+            # without an ordering only the whole-partition frame is determined (the default frame "unbounded preceding ..
+            # current data point" over unordered datapoints is not): always written explicitly
+            orderby = []
+            window = ("rows", "up", "uf")
+        elif w != "none":
+            i1 = draw(st.integers(0, len(BOUND_ORDER) - 1))
+            i2 = draw(st.integers(i1, len(BOUND_ORDER) - 1))
+            s_, e_ = BOUND_ORDER[i1], BOUND_ORDER[i2]
+            if s_ == "uf": s_ = "cur"
+            if e_ == "up": e_ = "cur"
+            if BOUND_ORDER.index(s_) > BOUND_ORDER.index(e_): s_, e_ = e_, s_
+            mode = "rows"
+            if w == "range" and len(orderby) == 1 and comps[orderby[0][0]][1] == "Integer":
+                mode = "range"
+            window = (mode, s_, e_)
+    if op == "count":
+        ci = dict(ci, rows={"DS_1": [dict(r, **{m: (r[m] if r[m] is not None else "1") for m in meas}) for r in ci["rows"]["DS_1"]]})
+    measure = draw(st.sampled_from(meas)) if calc else None
+    target = "an_1" if calc else None
+    if op == "rank":
+        measure = None
+    return ci, ("analytic", op, ("ds", "DS_1"), measure, partition, orderby, window, params, target)
+
+
+@st.composite
+def dsif_case(draw):
+    """(ci, ir): if C then A else B at dataset level; C boolean mono-measure with nulls; partial key overlap."""
+    n_ids = draw(st.integers(1, 2))
+    ids = ID_POOL[:n_ids]
+    fam = draw(st.sampled_from(["num", "str"]))
+    n_meas = draw(st.integers(1, 2))
+    structs, rows = {}, {}
+    mt = [draw(st.sampled_from(FAMILIES[fam])) for _ in range(n_meas)]
+    for name, kind in (("DS_1", "bool"), ("DS_2", fam), ("DS_3", fam)):
+        comps = {n: ("I", t) for n, t in ids}
+        if kind == "bool":
+            comps["Me_1"] = ("M", "Boolean")
+        else:
+            order = list(range(n_meas))
+            # (then/else branches declaring the same measures in a different order are rejected with 1-1-9-13: not generated)
+            for j in order:
+                comps["Me_%d" % (j + 1)] = ("M", mt[j])
+        structs[name] = comps
+        keys = draw(st.lists(st.tuples(*[st.sampled_from(ID_VALUES[n]) for n, _ in ids]), min_size=0, max_size=6, unique=True))
+        rows[name] = [dict({n: str(v) for (n, _), v in zip(ids, key)}, **{c: draw(st.one_of(st.none(), st.sampled_from(POOL[t]))) for c, (role, t) in comps.items() if role != "I"}) for key in keys]
+    return dict(structs=structs, rows=rows, family=fam), ("dsif", ("ds", "DS_1"), ("ds", "DS_2"), ("ds", "DS_3"))
